@@ -448,8 +448,14 @@ def gf_split_pieces(prog, f):
         if m.kind == 'stmt' and isinstance(m.ast, ast.Assign) and unparse(m.ast.value) == '%s.gf' % lp \
                 and ('haskey', kw, 'gf_split', True) in [x[0] for x in facts_at(cfg, m.id)]:
             t = unparse(m.ast.targets[0])
-            if t.endswith("['edge']") or t == 'edge':
+            if t.endswith("['edge']"):
                 edge_ok = True
+            elif isinstance(m.ast.targets[0], ast.Name):
+                # a local that is stored as the edge label afterwards
+                for m2 in cfg.eval_nodes():
+                    if m2.kind == 'stmt' and isinstance(m2.ast, ast.Assign) and unparse(m2.ast.targets[0]).endswith("['edge']") \
+                            and unparse(m2.ast.value) == t:
+                        edge_ok = True
     # parse call passes the separator option
     parse_ok = False
     d = single_def(f, lp, n.id)
@@ -649,7 +655,10 @@ def _file_id_ok(f, nm, fid, use):
     if nm == 'export':
         if isinstance(fid, ast.Name):
             defs = name_defs(f, fid.id)
-            good = [d for d in defs if isinstance(d[1], ast.AST) and unparse(d[1]) == 'int(line.split()[1])']
+            good = [d for d in defs if isinstance(d[1], ast.Call) and unparse(d[1].func) == 'int' and len(d[1].args) == 1
+                    and isinstance(d[1].args[0], ast.Subscript) and unparse(d[1].args[0].slice) == '1'
+                    and isinstance(d[1].args[0].value, ast.Call) and unparse(d[1].args[0].value.func).endswith('.split')
+                    and not d[1].args[0].value.args]
             rest = [d for d in defs if d not in good and not (isinstance(d[1], ast.Constant) and d[1].value is None)]
             if len(good) == 1 and not rest:
                 facts = [x[0] for x in facts_at(f.cfg, good[0][0])]
